@@ -175,6 +175,7 @@ func spec_advall(ips [][][sha256.Size]byte, terms [][sha256.Size]byte, start uin
 // headers; for sourceTxID < targetTxID additionally inclusion of the source Alh and consistency of the two trees
 // (for sourceTxID == 1 the source tree is the single leaf leafFor(sourceAlh)).
 //@ func VerifyDualProofV2
+//@   assigns nothing
 //@   ensures nonnil: r0 == nil ==> proof != nil && proof.SourceTxHeader != nil && proof.TargetTxHeader != nil
 //@   ensures ids: r0 == nil ==> proof.SourceTxHeader.ID == sourceTxID && proof.TargetTxHeader.ID == targetTxID
 //@   ensures order: r0 == nil ==> sourceTxID != 0 && sourceTxID <= targetTxID
